@@ -8,6 +8,8 @@ CONSTANTS
   UpErrs = {"hw"}
   Conns = {"c1", "c2"}
   StartDown = {}
+  ReqArgs <- OneArg
+  ReqConns <- OneConn
   WaitSteps = {2, 12}
   ReadErrChoice = {TRUE, FALSE}
   GiveUpErrChoice = {TRUE, FALSE}
